@@ -40,7 +40,10 @@ def spectrum(n: int, seed: int) -> List[Tuple[float, complex]]:
     return pts
 
 
-def num(x: float, decimal: str) -> str:
+def num(x: float, decimal: str, ints: bool = False) -> str:
+    """`ints`: whole numbers are written without a fractional part (10000 rather than 10000.0), as spreadsheets and loggers do."""
+    if ints and float(x).is_integer() and abs(x) < 1e15:
+        return str(int(x))
     s = repr(float(x))
     return s.replace(".", ",") if decimal == "," else s
 
@@ -50,7 +53,7 @@ def apply_case(h: str, case: str) -> str:
 
 
 def table(sweeps: Sequence[Sequence[Tuple[float, complex]]], *, polar: bool, f_alias: str, a_alias: str, b_alias: str, case: str,
-          neg_a: str, neg_b: str, unit: str, order: str, sep: str, decimal: str) -> Optional[str]:
+          neg_a: str, neg_b: str, unit: str, order: str, sep: str, decimal: str, ints: bool = False) -> Optional[str]:
     """Delimited text table. a/b = real/imaginary (cartesian) or magnitude/phase in degrees (polar).
     Returns None when the combination violates the documented detection contract
     (decimal comma with comma separator; header text containing the separator)."""
@@ -85,9 +88,9 @@ def table(sweeps: Sequence[Sequence[Tuple[float, complex]]], *, polar: bool, f_a
                 a = -a
             if neg_b:
                 b = -b
-            cells = {"f-first": [num(f, decimal), num(a, decimal), num(b, decimal)],
-                     "f-last": [num(a, decimal), num(b, decimal), num(f, decimal)],
-                     "extra": [num(t, decimal), num(f, decimal), num(a, decimal), num(b, decimal)]}[order]
+            cells = {"f-first": [num(f, decimal, ints), num(a, decimal, ints), num(b, decimal, ints)],
+                     "f-last": [num(a, decimal, ints), num(b, decimal, ints), num(f, decimal, ints)],
+                     "extra": [num(t, decimal, ints), num(f, decimal, ints), num(a, decimal, ints), num(b, decimal, ints)]}[order]
             lines.append(sep.join(cells))
             t += 0.5
     return "\n".join(lines) + "\n"
@@ -96,12 +99,16 @@ def table(sweeps: Sequence[Sequence[Tuple[float, complex]]], *, polar: bool, f_a
 # ---------------------------------------------------------------------------------------------------
 # instrument layouts (modelled on the files under /repo/tests)
 
-def mpt(sweeps) -> Tuple[str, str, str, float]:
+def _dec(txt: str, decimal: str) -> str:
+    return txt.replace(".", ",") if decimal == "," else txt
+
+
+def mpt(sweeps, decimal: str = ".") -> Tuple[str, str, str, float]:
     hdr = "EC-Lab ASCII FILE\nNb header lines : 4\n\nfreq/Hz\tRe(Z)/Ohm\t-Im(Z)/Ohm\t|Z|/Ohm\tPhase(Z)/deg\n"
     rows = []
     for sw in sweeps:
         for f, z in sw:
-            rows.append(f"{f:.7E}\t{z.real:.7E}\t{-z.imag:.7E}\t{abs(z):.7E}\t{math.degrees(cmath.phase(z)):.7E}")
+            rows.append(_dec(f"{f:.7E}\t{z.real:.7E}\t{-z.imag:.7E}\t{abs(z):.7E}\t{math.degrees(cmath.phase(z)):.7E}", decimal))
     return "s.mpt", hdr + "\n".join(rows) + "\n", "latin1", 2e-7
 
 
@@ -110,15 +117,15 @@ def i2b(sw) -> Tuple[str, str, str, float]:
     return "s.i2b", txt, "utf-8", 1e-14
 
 
-def p00(sw) -> Tuple[str, str, str, float]:
+def p00(sw, decimal: str = ".") -> Tuple[str, str, str, float]:
     txt = ("Procedure : t\nDD\nDescription\nt = 1 s\n f/Hz \t Z'/Ohm \t -Z''/Ohm \t time/s \t Edc/V \t Idc/A \t\n %d \n" % len(sw)
-           + "\n".join(f" {f:.9e}\t {z.real:.9e}\t {-z.imag:.9e}\t 1.0\t 0.1\t 1e-8\t" for f, z in sw) + "\n")
+           + "\n".join(_dec(f" {f:.9e}\t {z.real:.9e}\t {-z.imag:.9e}\t 1.0\t 0.1\t 1e-8\t", decimal) for f, z in sw) + "\n")
     return "s.P00", txt, "utf-8", 2e-9
 
 
-def dfr(sw) -> Tuple[str, str, str, float]:
+def dfr(sw, decimal: str = ".") -> Tuple[str, str, str, float]:
     txt = "VERSION8.0\n %d\n 1\n" % len(sw) + "".join(
-        f" {f!r}\n {z.real!r}\n {-z.imag!r}\n 0.0\n 0.0\n 0.0\n 0.0\n 0.0\n 0.0\n" for f, z in sw)
+        _dec(f" {f!r}\n {z.real!r}\n {-z.imag!r}\n 0.0\n 0.0\n 0.0\n 0.0\n 0.0\n 0.0\n", decimal) for f, z in sw)
     return "s.dfr", txt, "utf-8", 1e-14
 
 
